@@ -508,7 +508,16 @@ package jsonpatch
 //@   ensures[C01,C05] docs-untouched: forall d *partialDoc {d.obj} {d.keys} :: old(allocated(d) && d.obj != nil) ==> d.obj == old(d.obj) && d.keys == old(d.keys)
 //@   ensures[C01,C05] arrays-untouched: forall a *partialArray {a.nodes} :: old(allocated(a) && a.nodes != nil) ==> a.nodes == old(a.nodes)
 //@   ensures[C01,C04] children-stable: forall c *lazyNode {c.which} :: old(childOK(c)) ==> childOK(c)
+//@   ensures[C06] absent-operand: o == nil ==> (result <==> old(n.which == eRaw && (n.raw == nil || kind(val(*n.raw)) == KNull)))
+//@   ensures[C06] null-equals-only-null: o != nil && old(n.which == eRaw && o.which == eRaw && n.raw != nil && o.raw != nil && (kind(val(*n.raw)) == KNull || kind(val(*o.raw)) == KNull)) ==> (result <==> old(kind(val(*n.raw)) == KNull && kind(val(*o.raw)) == KNull))
+//@   ensures[C06] strings-by-value: o != nil && old(n.which == eRaw && o.which == eRaw && n.raw != nil && o.raw != nil && kind(val(*n.raw)) == KStr && kind(val(*o.raw)) == KStr) ==> (result <==> old(strval(val(*n.raw)) == strval(val(*o.raw))))
+//@   ensures[C06] object-vs-other: o != nil && old(n.raw != nil && o.raw != nil && n.which == eRaw && o.which == eRaw && kind(val(*n.raw)) == KObj && kind(val(*o.raw)) != KObj) ==> !result
+//@   ensures[C06] array-vs-other: o != nil && old(n.raw != nil && o.raw != nil && n.which == eRaw && o.which == eRaw && kind(val(*n.raw)) == KArr && kind(val(*o.raw)) != KArr) ==> !result
+//@   ensures[C06] objects-same-members: o != nil && result && n.which == eDoc ==> o.which == eDoc && len(n.doc.obj) == len(o.doc.obj) && (forall k string {n.doc.obj[k]} {domsel(n.doc.obj, k)} :: k in n.doc.obj ==> k in o.doc.obj && ((n.doc.obj[k] == nil) <==> (o.doc.obj[k] == nil)))
+//@   ensures[C06] arrays-same-shape: o != nil && result && n.which == eAry && n.ary != nil ==> o.which == eAry && o.ary != nil && len(n.ary.nodes) == len(o.ary.nodes) && (forall i int {n.ary.nodes[i]} :: 0 <= i && i < len(n.ary.nodes) ==> ((n.ary.nodes[i] == nil) <==> (o.ary.nodes[i] == nil)))
 //@   loop 1
+//@   invariant members-so-far: forall k string {n.doc.obj[k]} {domsel(n.doc.obj, k)} :: k in n.doc.obj && visited(k) ==> k in o.doc.obj && ((n.doc.obj[k] == nil) <==> (o.doc.obj[k] == nil))
+//@   invariant same-len: len(n.doc.obj) == len(o.doc.obj) && n.doc == atentry(n.doc) && o.doc == atentry(o.doc) && n.doc.obj == atentry(n.doc.obj) && o.doc.obj == atentry(o.doc.obj)
 //@   invariant parsed-untouched: forall m *lazyNode {m.which} {m.doc} {m.ary} :: (old(allocated(m) && m.which == eDoc) ==> m.which == eDoc && m.doc == old(m.doc)) && (old(allocated(m) && m.which == eAry) ==> m.which == eAry && m.ary == old(m.ary))
 //@   invariant docs-untouched: forall d *partialDoc {d.obj} {d.keys} :: old(allocated(d) && d.obj != nil) ==> d.obj == old(d.obj) && d.keys == old(d.keys)
 //@   invariant arrays-untouched: forall a *partialArray {a.nodes} :: old(allocated(a) && a.nodes != nil) ==> a.nodes == old(a.nodes)
@@ -519,6 +528,7 @@ package jsonpatch
 //@   invariant docs-untouched: forall d *partialDoc {d.obj} {d.keys} :: old(allocated(d) && d.obj != nil) ==> d.obj == old(d.obj) && d.keys == old(d.keys)
 //@   invariant arrays-untouched: forall a *partialArray {a.nodes} :: old(allocated(a) && a.nodes != nil) ==> a.nodes == old(a.nodes)
 //@   invariant children-stable: forall c *lazyNode {c.which} :: old(childOK(c)) ==> childOK(c)
+//@   invariant elements-so-far: forall i int {n.ary.nodes[i]} :: 0 <= i && i <= rangeindex ==> ((n.ary.nodes[i] == nil) <==> (o.ary.nodes[i] == nil))
 //@   invariant both-arrays: n.which == eAry && o.which == eAry && n.ary != nil && o.ary != nil && len(n.ary.nodes) == len(o.ary.nodes) && n.ary.nodes == atentry(n.ary.nodes) && o.ary.nodes == atentry(o.ary.nodes)
 
 //@ func Equal
